@@ -663,6 +663,51 @@ C18_decided_fixed(prev, step) ==
 C19_idem(step) == (step.call.op = "query" /\ step.ret = "ok") =>
                      step.offers2 = step.obs.offers /\ step.pers2 = TRUE
 
+(* ---------- vacuity accounting ------------------------------------------------------------ *)
+(* The situations in which the clauses above say something (their antecedents).  Trace.tla     *)
+(* accumulates, per path, which of them occurred; a check run in which a situation its property *)
+(* is about never occurred is a machinery failure, not a pass (harness/pipeline.py REQUIRED).   *)
+TG(name, on) == IF on THEN {name} ELSE {}
+Triggers(d, h0, h1, prev, step) ==
+  LET o == step.obs
+      offs == {i \in 1..Len(o.offers) : o.offers[i].id \in TaskNames(d)}
+  IN
+  TG("offer", o.q /\ o.offers # << >>) \cup
+  TG("new_exec", IsNewExec(prev, step)) \cup
+  TG("completion", IsCompletion(prev, step)) \cup
+  TG("wf_succeeded", o.wf = "succeeded") \cup
+  TG("wf_failed", o.wf = "failed") \cup
+  TG("wf_paused_or_canceled", o.wf \in {"paused", "canceled"}) \cup
+  TG("wf_pausing_or_canceling", o.wf \in {"pausing", "canceling"}) \cup
+  TG("quiescent", Quiescent(step) /\ h1.started) \cup
+  TG("after_terminal", h0.term # "none") \cup
+  TG("offer_query_after_terminal", h0.term # "none" /\ o.q) \cup
+  TG("report_after_terminal", h0.term # "none" /\ step.call.op = "report") \cup
+  TG("request_rejected", step.call.op \in {"req", "rerun"} /\ step.ret # "ok") \cup
+  TG("cleanup_due", o.q /\ o.wf = "failed" /\ h0.cleanupDue # {}) \cup
+  TG("published", IsCompletion(prev, step) /\ Len(o.ctxs) > Len(prev.ctxs)) \cup
+  TG("output_rendered", step.call.op = "render" /\ o.hasout) \cup
+  TG("join_offer", o.q /\ \E i \in offs : IsJoin(d, o.offers[i].id)) \cup
+  TG("join_started", IsNewExec(prev, step) /\ IsJoin(d, step.call.task)) \cup
+  TG("partial_join_at_rest", Quiescent(step) /\ h1.started /\ PartialJoins(d, h1) # {}) \cup
+  TG("held_by_pause", o.q /\ o.wf \in {"pausing", "paused"}) \cup
+  TG("pause_requested", h1.pauseReq) \cup
+  TG("resumed_query", o.q /\ h0.resumed) \cup
+  TG("cancel_requested", h1.cancelReq) \cup
+  TG("canceled_render", step.call.op = "render" /\ prev.wf = "canceled") \cup
+  TG("expr_error", NewErrs(prev, o, "expr") # {}) \cup
+  TG("item_offer", o.q /\ ItemOffers(d, step) # {}) \cup
+  TG("item_window_partial", o.q /\ \E i \in ItemOffers(d, step) : o.offers[i].nact < o.offers[i].nitems) \cup
+  TG("items_task_completed", IsCompletion(prev, step) /\ HasItems(d, step.call.task)) \cup
+  TG("retried", IsRetried(prev, step)) \cup
+  TG("retry_offer", o.q /\ \E i \in offs : RecSt(o, o.offers[i].id, o.offers[i].route) = "retrying") \cup
+  TG("rerun_accepted", step.call.op = "rerun" /\ step.ret = "ok") \cup
+  TG("rerun_rejected", step.call.op = "rerun" /\ step.ret # "ok") \cup
+  TG("new_exec_after_rerun", h0.rerun /\ IsNewExec(prev, step)) \cup
+  TG("quiescent_after_rerun", h1.rerun /\ Quiescent(step)) \cup
+  TG("query_ok", step.call.op = "query" /\ step.ret = "ok") \cup
+  TG("record_decided", \E i \in 1..Len(prev.seq) : prev.seq[i].st \in Completed)
+
 (* ---------- the clause set ------------------------------------------------------------------ *)
 F(name, ok) == IF ok THEN {} ELSE {name}
 FP(prop, name, ok) == IF ok THEN {} ELSE {<<prop, name>>}
